@@ -127,7 +127,7 @@ PROPS["C19"] = dict(
     level="proof",
     modules=["contracts.c_var_int", "contracts.c_tx", "contracts.c_dsa_der", "contracts.c_pow", "contracts.c_script_num", "contracts.c_opcodes",
              "contracts.c_script_pub_key", "contracts.c_number_theory", "contracts.c_bech32", "contracts.c_base58", "contracts.c_fee",
-             "contracts.c_bip32", "contracts.c_taproot", "contracts.c_ssa", "contracts.c_dsa", "contracts.c_block", "contracts.c_engine", "contracts.c_descriptors"],
+             "contracts.c_bip32", "contracts.c_taproot", "contracts.c_ssa", "contracts.c_dsa", "contracts.c_block", "contracts.c_engine", "contracts.c_descriptors", "contracts.c_hostile"],
     not_decided=["hangs (termination) except where a `dec` clause is proved", "JSON guards, descriptor/miniscript parsers, recursion depth: not under contract"],
     assumptions=[],
     explanation="safety.* obligations (no IndexError/KeyError/OverflowError/... at any subscript, width conversion, division) and raises.undeclared.* obligations of every parser and predicate under contract",
